@@ -8,7 +8,7 @@ def sh(cmd, **kw):
     return subprocess.run(cmd, capture_output=True, text=True, **kw)
 
 
-only = sys.argv[1:]
+only = [a for a in sys.argv[1:] if not a.startswith("-")]
 ids = [f"C{i:02d}" for i in range(1, 21)]
 rows = []
 for d in sorted(os.listdir("/verif/seeded")):
@@ -35,12 +35,26 @@ for d in sorted(os.listdir("/verif/seeded")):
     errs = {i: e for i, rc, v, e in res if rc == 2}
     mp = f"/verif/seeded/{d}/meta.json"
     meta = json.load(open(mp))
+    neutral = meta.get("kind") == "neutral"
     meta["checks_firing"] = fired
-    meta["own_check_detects"] = pid in fired
+    if neutral:
+        meta["false_alarms"] = sorted(fired)
+    else:
+        meta["own_check_detects"] = pid in fired
     meta.pop("analysis_errors", None)
     if errs:
         meta["analysis_errors"] = errs
     json.dump(meta, open(mp, "w"), indent=1)
-    rows.append((d, pid in fired, sorted(fired), sorted(errs)))
-    print(f"{d}: own={'DETECTS' if pid in fired else 'MISSES '} firing={sorted(fired)} errors={sorted(errs)}", flush=True)
-print("own-check detection:", sum(1 for r in rows if r[1]), "/", len(rows))
+    good = (not fired and not errs) if neutral else (pid in fired)
+    rows.append((d, good, sorted(fired), sorted(errs), neutral))
+    if neutral:
+        print(f"{d}: neutral {'silent     ' if good else ('FALSE ALARM' if fired else 'BLIND      ')} firing={sorted(fired)} errors={sorted(errs)}", flush=True)
+    else:
+        print(f"{d}: own={'DETECTS' if pid in fired else 'MISSES '} firing={sorted(fired)} errors={sorted(errs)}", flush=True)
+    if not good and "-v" in sys.argv:
+        for i, v in list(fired.items()) + [(i, [e]) for i, e in errs.items()]:
+            for x in v[:4]:
+                print("      ", i, x[:300])
+br = [r for r in rows if not r[4]]
+ne = [r for r in rows if r[4]]
+print("breaking: own-check detection", sum(1 for r in br if r[1]), "/", len(br), "| neutral: silent", sum(1 for r in ne if r[1]), "/", len(ne))
